@@ -168,6 +168,14 @@ def run(R, env):
                     R.ob("C13.R4", "SpendFunds:ibc:message", good, "MsgTransfer{channel: %s, receiver: %s, token: (%s, %s)}" % (fmt(t["channel"] or ("none",))[:50], fmt(t["receiver"] or ("none",))[:50], fmt(d or ("none",))[:40], fmt(a or ("none",))[:40]), loc=t["loc"], fn=hk)
             for _, term in success_terms(w):
                 R.ob("C13.R4", "SpendFunds:%s:one-message-in-response" % name, len(response_calls(term)) == 1, "response carries %d messages" % len(response_calls(term)), fn=hk)
+    # the receiver validator itself (treasury's own helper): decoded prefix equality, not a textual test
+    vals = set()
+    for b in prog.fn_bodies(CRATE):
+        if b.kind == "fn" and b.nargs == 2 and any((call_name(t) or "").startswith("bech32::decode") for _, t in b.calls()):
+            vals.add(b.key)
+    R.floor("C13.R4", "treasury address validators", len(vals), 1)
+    for k in sorted(vals):
+        shared.address_validator_shape(R, prog, k, "C13.R4", tag="receiver-validator")
     # ------------------------------------------------------------ R5 UpdateConfig
     if "UpdateConfig" in table and table["UpdateConfig"]["calls"]:
         arm = table["UpdateConfig"]
